@@ -16,6 +16,7 @@ make_unique (default construction, other arguments, another class) yields an obj
 `make_unique<T>()` or `make_unique<base_t>(*this)` is refuted."""
 import os
 import re
+import threading
 import subprocess
 
 import astload
@@ -31,16 +32,21 @@ def _gen_dir():
     return d
 
 
+_write_lock = threading.Lock()
+
+
 def _write(path, text):
-    try:
-        if open(path).read() == text:
-            return
-    except OSError:
-        pass
-    tmp = f'{path}.{os.getpid()}'
-    with open(tmp, 'w') as f:
-        f.write(text)
-    os.replace(tmp, path)
+    """(re)write a generated file atomically; the targets' worker threads ask for the same file concurrently"""
+    with _write_lock:
+        try:
+            if open(path).read() == text:
+                return
+        except OSError:
+            pass
+        tmp = f'{path}.{os.getpid()}.{threading.get_ident()}'
+        with open(tmp, 'w') as f:
+            f.write(text)
+        os.replace(tmp, path)
 
 
 def groups():
